@@ -44,10 +44,17 @@ def lit(rng: random.Random, v: int) -> str:
         return f'(0-{lit(rng, -v)})'
     r = rng.random()
     if r < 0.004 and v < 10 ** 23:
-        # the difference of two decimal literals of thousands of digits (numbers are unbounded in the language)
+        # one literal of thousands of digits, reduced by a small modulus and added to the rest of the value: a mis-read literal
+        # moves the word by less than 97, so the program still assembles and the image shows it
+        modulus = 97
+        rest = v - v % modulus
         prefix = str(rng.randrange(1, 10)) + ''.join(rng.choice('0123456789') for _ in range(rng.choice([3980, 4280, 5000, 7977])))
-        tail = rng.randrange(v, 10 ** 24)
-        return f'({prefix}{tail:024d} - {prefix}{tail - v:024d})'
+        high = 0
+        for k in range(0, len(prefix), 900):       # Horner, reduced as it goes: no big-integer <-> string conversion here
+            piece = prefix[k:k + 900]
+            high = (high * pow(10, len(piece), modulus) + int(piece)) % modulus
+        tail = (v % modulus - high * pow(10, 25, modulus)) % modulus
+        return f'({rest} + ({prefix}{tail:025d} % {modulus}))'
     if r < 0.55:
         return str(v)
     if r < 0.85:
